@@ -60,7 +60,35 @@ use std::collections::{HashMap, HashSet};
 pub const PROP: Prop = Prop { gen, run, panic_ok: never };
 
 fn main() {
+    let _ = NORMALISE.set(refresh_weights);
     run_main(PROP)
+}
+
+/// the weight section of a stored H case (after the last "W": 3 fields x nv (low, high) pairs) is
+/// whatever create_semantic_hash_map produced when the case was written; the property fixes that
+/// low + high = 1 and that the map is a fixed function of the variable, not the values: a stored
+/// case is re-read with the weights the implementation produces now
+fn refresh_weights(case: &str) -> String {
+    let t = toks(case);
+    if t.first() == Some(&"SOAK") {
+        return case.to_string();
+    }
+    let Some(w) = t.iter().rposition(|x| *x == "W") else { return case.to_string() };
+    let prog = parse(case);
+    let nv = prog.total_vars();
+    if w + 1 + 6 * nv > t.len() {
+        return case.to_string();
+    }
+    let real = all_real_weights(nv);
+    let mut out: Vec<String> = t[..=w].iter().map(|x| x.to_string()).collect();
+    for f in real.iter() {
+        for (lo, hi) in f {
+            out.push(lo.to_string());
+            out.push(hi.to_string());
+        }
+    }
+    out.extend(t[w + 1 + 6 * nv..].iter().map(|x| x.to_string()));
+    out.join(" ")
 }
 
 const P0: u128 = primes::U32_TINY;
